@@ -12,21 +12,7 @@ open Evalcommon
 
 let case_peel src k = L [ A "peel"; A (Gen_prog.hex_of_string src); n k ]
 
-type block = Param of term | Group of (term * term) list
-
-(* ctx entries, outermost first, as S-expression and as the oracle's context (innermost first) *)
-let ctx_sexp (bs : block list) : Sexp.t =
-  L (A "ctx" :: List.concat_map (function
-      | Param a -> [ L [ A "param"; sexp_of_term a ] ]
-      | Group ds -> let k = List.length ds in
-        List.mapi (fun j (a, d) -> L [ A "def"; sexp_of_term a; n (k - j); sexp_of_term d ]) ds) bs)
-
-let ctx_oracle (bs : block list) =
-  List.fold_left (fun g b -> match b with
-      | Param a -> bind g a
-      | Group ds -> enter ds g) [] bs
-
-let depth_of (bs : block list) = List.fold_left (fun d b -> d + (match b with Param _ -> 1 | Group ds -> List.length ds)) 0 bs
+open Ctxcommon
 
 let random_ctx (r : Rng.t) : block list =
   let nb = 1 + Rng.int r 3 in
@@ -87,31 +73,6 @@ let gen ~(tier : string) ~(seed : int) ~(emit : Sexp.t -> unit) : unit =
         emit (L [ A "unifypair"; ctx_sexp bs; sexp_of_term ~depth:d t; sexp_of_term ~depth:d u ])
     end
   done
-
-let blocks_of_sexp (x : Sexp.t) : block list =
-  (* regroup consecutive (def .. off ..) entries: a group starts at an entry whose offset equals the group size *)
-  let entries = (match x with L (A "ctx" :: es) -> es | _ -> []) in
-  let rec go es acc =
-    match es with
-    | [] -> List.rev acc
-    | L [ A "param"; a ] :: r -> go r (Param (term_of_sexp a) :: acc)
-    | L [ A "def"; _; off; _ ] :: _ ->
-      let k = int off in
-      let rec take i es ds = if i = 0 then (List.rev ds, es) else
-          (match es with L [ A "def"; a; _; d ] :: r -> take (i - 1) r ((term_of_sexp a, term_of_sexp d) :: ds) | _ -> (List.rev ds, es)) in
-      let (ds, rest) = take k es [] in go rest (Group ds :: acc)
-    | _ :: r -> go r acc in
-  go entries []
-
-(* inputs outside the operation's precondition (ill-scoped terms, which only shrinking can produce) are not failures *)
-let scoped (d : int) (t : term) : bool = List.for_all (fun v -> int_of_nat v < d) (fvl t O)
-let ctx_scoped (bs : block list) : bool =
-  let ok = ref true and d = ref 0 in
-  List.iter (function
-      | Param a -> if not (scoped !d a) then ok := false; incr d
-      | Group ds -> let d' = !d + List.length ds in
-        List.iter (fun (a, x) -> if not (scoped d' a && scoped d' x) then ok := false) ds; d := d') bs;
-  !ok
 
 let check (case : Sexp.t) (res : Sexp.t) : [ `Ok | `Mismatch of string | `Property of string ] * bool =
   let precondition =
